@@ -3,13 +3,19 @@
 (* midpoints) with inter-beat gaps of 2 or 4 units, estimates anywhere on the lattice: P-score,    *)
 (* Goto and the Cemgil terms by specification.                                                      *)
 EXTENDS Beat, TLC, Json
-CONSTANTS PMax, NR, NE
+CONSTANTS PMax, NR, NE, Family
 VARIABLES ref, est, thr, out, pc
 vars == <<ref, est, thr, out, pc>>
 Evens == {2 * k : k \in 0..(PMax \div 2)}
 Refs == {s \in StrictSeqs(Evens, NR) : Len(s) >= 2 /\ \A k \in 1..(Len(s) - 1) : s[k + 1] - s[k] \in {2, 4}}
 Ests == StrictSeqs(0..PMax, NE) \ {<<>>}
-Init == ref \in Refs /\ est \in Ests /\ thr \in {<<1, 5>>, <<1, 4>>} /\ out = <<>> /\ pc = "in"
+(* family "jitter": a regular reference (period 8 units) and an estimate that moves every beat by -1, 0 or +1 unit   *)
+(* (errors of +-1/4 of the half period, inside the Goto threshold, of either sign)                                      *)
+Regular(n) == [k \in 1..n |-> 8 * (k - 1)]
+Jitters(n) == {[k \in 1..n |-> Regular(n)[k] + 1 + j[k]] : j \in [1..n -> {-1, 0, 1}]}
+Init == /\ thr \in {<<1, 5>>, <<1, 4>>} /\ out = <<>> /\ pc = "in"
+        /\ IF Family = "free" THEN ref \in Refs /\ est \in Ests
+           ELSE \E n \in {5, 6} : ref = [k \in 1..n |-> Regular(n)[k] + 1] /\ est \in Jitters(n)
 Solve == /\ pc = "in" /\ pc' = "out" /\ UNCHANGED <<ref, est, thr>>
          /\ out' = [ps |-> PScore(ref, est, thr), goto |-> Goto(ref, est, <<35, 100>>, <<1, 5>>, <<1, 5>>),
                     goto2 |-> Goto(ref, est, <<1, 4>>, <<1, 4>>, <<1, 2>>), cem |-> CemgilTerms(ref, est),
